@@ -23,6 +23,15 @@ def in_projection(m):
     return ksuites.last_failed_mutation(m["result"], m["line"]) is not None
 
 
+def in_projection_matrix(m):
+    # in the matrix EVERY read follows refused calls: any disagreement about an attribute value, the population, the directory or the acceptance of the final valid change counts
+    return (m["op"] in ("getattr", "find", "findinit", "dumpdir") and m["cat"] in ("nums", "vals", "rvclass", "disk")) or (m["op"] in ("setattr", "copy") and m["cat"] in ("rvclass", "nums"))
+
+
+def sig_of_matrix(m):
+    return "prefix-matrix.%s.%s" % (m["op"], m["cat"])
+
+
 def sig_of(m):
     lf = ksuites.last_failed_mutation(m["result"], m["line"])
     return "effect-after-failed-%s" % (lf[1].split()[0] if lf else "call")
@@ -32,6 +41,9 @@ def run_k(ctx, kres):
     from .. import gen
     from ..main import Trace
     v = k_suite(ctx, kres, "K09-objects", ksuites.corpus_traces("C09") + ksuites.object_traces(ctx), in_projection, sig_of=sig_of)
+    # every class x every way a two-entry template is refused x both orders: no prefix applied, nothing found under the refused label, object still changeable, disk = model
+    from .. import gen2
+    v += k_suite(ctx, kres, "K09-prefix-matrix(exhaustive)", [Trace("prefix-matrix", gen2.c09_prefix_matrix(gen.load_tables(), ctx.seed))], in_projection_matrix, sig_of=sig_of_matrix, shrink_budget=60)
     # refused C_UnwrapKey (damaged blobs) / C_DeriveKey (too-short secrets, bad parameters): nothing may stay behind
     n = 16 if ctx.quick else 300
     v += k_suite(ctx, kres, "K09-unwrap-derive", [Trace("wrap%d" % i, gen.wrap_history(ctx.seed * 3497861 + i, 50)) for i in range(n)], in_projection, sig_of=sig_of)
